@@ -6,11 +6,11 @@ BODYLESS = ["204 No Content", "304 Not Modified"]
 CHUNK_POOL = ["", "a", "hello", "0\r\n\r\n", "x" * 100, "\r\n", "HTTP/1.1 200 OK\r\n\r\n", "\xe9\xff", "y" * 5000]
 
 
-def gen_program(rng, well_behaved=True, allow_fail=True, allow_file=True):
+def gen_program(rng, well_behaved=True, allow_fail=True, allow_file=True, allow_1xx=False):
     p = {}
     bodyless = rng.randrange(8) == 0
     p["status"] = rng.choice(BODYLESS) if bodyless else rng.choice(STATUSES)
-    if bodyless and rng.randrange(4) == 0:
+    if bodyless and allow_1xx and rng.randrange(4) == 0:
         # an application that switches protocols through its WSGI response: a 1xx status has no body and no framing of its own
         p["status"] = "101 Switching Protocols"
     headers = [["Content-Type", rng.choice(["text/plain", "application/octet-stream"])]]
